@@ -82,6 +82,25 @@ def strategy(tier):
     )
 
 
+class MinimalDB:
+    """A node database that offers exactly what BinaryTrie needs: item access and `in`."""
+
+    def __init__(self):
+        self._d = {}
+
+    def __getitem__(self, key):
+        return self._d[key]
+
+    def __setitem__(self, key, value):
+        self._d[key] = value
+
+    def __contains__(self, key):
+        return key in self._d
+
+    def as_dict(self):
+        return dict(self._d)
+
+
 def _play(t, model, hist):
     from trie.exceptions import NodeOverrideError
 
@@ -89,7 +108,7 @@ def _play(t, model, hist):
         if kind in ("reroot", "sparse"):
             continue
         k = resolve_arg(kspec, model)
-        val = resolve_bin_val(val, t.db)
+        val = resolve_bin_val(val, t.db.as_dict() if isinstance(t.db, MinimalDB) else t.db)
         new = dict(model)
         if kind == "set":
             if _conflicts(k, model):
@@ -112,7 +131,9 @@ def _play(t, model, hist):
 
 def run_case(case):
     info = Info()
-    db = {}
+    minimal = len(case["hist"]) % 2 == 1  # every other case lives in a minimal mapping, not a dict
+    db = MinimalDB() if minimal else {}
+    info.label("minimal-db", minimal)
     t = impl("construct", BinaryTrie, db)
     model = {}
     _play(t, model, case["hist"])
@@ -122,7 +143,7 @@ def run_case(case):
     ref = RefBin(model)
     root = bytes(t.root_hash)
     expect_eq("root-precondition", root, ref.root_hash, "root (precondition)")
-    db2 = dict(db)
+    db2 = db.as_dict() if minimal else dict(db)
     t2 = impl("construct", BinaryTrie, db2, root)
     model2 = dict(model)
     _play(t2, model2, case["hist2"])
@@ -134,6 +155,7 @@ def run_case(case):
 
     parsable_corruption = False
     longest = 0
+    forged_store = []
     for kspec in case["keys"]:
         k = resolve_arg(kspec, model) if kspec[1] != b"" or kspec[0] != "lit" else b""
         # ---- check_if_branch_exist --------------------------------------------------
@@ -201,6 +223,7 @@ def run_case(case):
             claimed_root = [root, root, bytes(t2.root_hash),
                             keccak(forged[0]) if forged else root][case["root"]]
             if forged:
+                forged_store.append((list(forged), claimed_root, claim))
                 want = resolve(claimed_root, bits_of(k), forged)
                 got = impl("if_branch_valid", if_branch_valid, forged, claimed_root, k, claim,
                            allowed=(Exception,))
@@ -224,6 +247,21 @@ def run_case(case):
         # the root node): whatever it returns must not influence the answer for the full db
         impl("get_witness_for_key_prefix", get_witness_for_key_prefix, {root: db[root]}, root, k,
              allowed=(InvalidKeyError, KeyError))
+        if forged_store:
+            # a forged branch offered as a mapping {claimed hash: node}: only the nodes count
+            fb, froot, fclaim = forged_store[-1]
+            as_map = {froot: fb[0]}
+            for nd in fb[1:]:
+                as_map[keccak(nd)] = nd
+            offered = list(as_map)  # what a consumer of "a sequence of nodes" sees
+            want_m = resolve(froot, bits_of(k), [n for n in offered if isinstance(n, bytes)])
+            got_m = impl("if_branch_valid", if_branch_valid, as_map, froot, k, fclaim, allowed=(Exception,))
+            if got_m is True:
+                expect("forged-branch-never-validates-wrong-answer",
+                       want_m not in (MISSING, MALFORMED) and want_m == fclaim,
+                       lambda: f"if_branch_valid accepted claim {fclaim!r} for {k!r} from a mapping keyed by "
+                               f"unverified hashes")
+            info.label("branch-as-mapping")
         w = impl("get_witness_for_key_prefix", get_witness_for_key_prefix, db, root, k,
                  allowed=(InvalidKeyError,))
         extends_stored = any(k != s and k.startswith(s) for s in model)
